@@ -392,11 +392,14 @@ type plainWriter struct {
 	writes int
 	fails  bool
 	dead   bool
+	// deadCalls - atomic: calls of a writer that accepts nothing. An attempt's flush calls the writer a bounded number of
+	// times; a count in the hundreds of thousands means a flush that retries forever.
+	deadCalls int64
 }
 
 func (w *plainWriter) Write(p []byte) (int, error) {
 	if w.dead {
-		w.writes++ // nothing is kept: a caller that retries forever must not fill the memory
+		atomic.AddInt64(&w.deadCalls, 1) // nothing is kept: a caller that retries forever must not fill the memory
 		return 0, errWriter
 	}
 	w.buf = append(w.buf, p...)
@@ -951,6 +954,12 @@ func Execute(spec *Spec) *Trace {
 				collect(rr)
 				gone[rr.gi] = true
 			case <-time.After(200 * time.Microsecond):
+				if n := atomic.LoadInt64(&r.out.deadCalls); n > 200000 {
+					tr.Stalled = fmt.Sprintf("the output writer (which accepts nothing) was called %d times: the flush of an attempt's output does not end", n)
+					abandon()
+					returned = ng
+					break
+				}
 				// scheduler iterations without any visible effect (logical time, every branch of the loop counts)
 				for gi, h := range hs {
 					if gone[gi] {
@@ -1224,6 +1233,11 @@ func Execute(spec *Spec) *Trace {
 					deadline = time.Now().Add(watchdog)
 					continue
 				}
+			}
+			if n := atomic.LoadInt64(&r.out.deadCalls); n > 200000 {
+				tr.Stalled = fmt.Sprintf("the output writer (which accepts nothing) was called %d times: the flush of an attempt's output does not end", n)
+				abandon()
+				break
 			}
 			if atomic.LoadInt32(&r.overflow) == 1 {
 				tr.Timeout = "run stopped by the controller: a task was entered more often than retries+1"
